@@ -227,6 +227,8 @@ func ruleHostCall(c *Ctx) []Obligation {
 	obs = append(obs, hcTerminationKinds(c)...)
 	// (4) the interrupt returned by VM.Wait reaches the host (rules_r4rta_waitres.go)
 	obs = append(obs, r4aWaitConsumers(c)...)
+	// (5) an interrupt received from a core's signal channel is handed on (rules_r6rt.go)
+	obs = append(obs, r6rtReceivedInterrupts(c)...)
 	return obs
 }
 
